@@ -2,7 +2,7 @@
    [exec] (subprocess.call and the outside world) and [echo] are arbitrary. *)
 From Coq Require Import String List ZArith.
 From VV Require Import Sched.Model Sched.Defs Sched.ProofsC02.
-From VV Require Import Lib.Base C19.Model C19.Proofs C19.Compose.
+From VV Require Import Lib.Base C19.Model C19.Proofs C19.Compose C19.Code.
 Import ListNotations.
 
 (* DONE exactly when every command was run and exited with status zero *)
@@ -147,3 +147,23 @@ Theorem C19_cannot_start_fails_task_not_run :
        (spec_status c t <> Some SKIPPED -> est (Sched.Model.env s t) = Some Sched.Model.FAILED)).
 Proof. exact cannot_start_fails_task_not_run. Qed.
 Print Assumptions C19_cannot_start_fails_task_not_run.
+
+(* CheckoutTask / BuildTask (code.py): calling run([cli]) step after step and
+   returning after the first step whose code is not zero is [run] on the list
+   of the steps, so every theorem above about [run] holds of these tasks *)
+Theorem C19_code_steps_are_run :
+  forall (cmd world : Type) (exec : cmd -> world -> C19.Model.outcome * world) (echo : cmd -> string)
+         (steps : list cmd) (w : world) (k : cap),
+  run_steps exec echo steps w k = C19.Model.run exec echo steps w k.
+Proof. exact run_steps_is_run. Qed.
+Print Assumptions C19_code_steps_are_run.
+
+(* their single log file holds, in order, echo line, stdout text and stderr
+   text of exactly the commands that were run *)
+Theorem C19_code_log_in_order :
+  forall (cmd world : Type) (exec : cmd -> world -> C19.Model.outcome * world) (echo : cmd -> string)
+         (steps : list cmd) (w : world),
+  log_of exec echo steps w
+  = log_chunks cmd echo (ran exec steps w) (ran_outcomes exec steps w).
+Proof. exact log_in_order. Qed.
+Print Assumptions C19_code_log_in_order.
